@@ -86,6 +86,10 @@ def apply_fault(fault, data, payload=None):
         return data[:4] + bytes([fault[1] & 0xff]) + data[5:], None
     if k == 'dup':
         return data + data, None
+    if k == 'disconnect':
+        # SSH_MSG_DISCONNECT with a reason code (RFC 4253 11.1) in place of the message, then the connection is gone
+        d = b'\x01' + struct.pack('>I', fault[1] & 0xffffffff) + wire.sstr(b'go away') + wire.sstr(b'')
+        return wire.pkt(d), 'close'
     if k == 'debug':
         dbg = wire.pkt(b'\x04\x00' + wire.sstr(b'debug message') + wire.sstr(b''))
         return dbg * fault[1] + data, None
@@ -214,6 +218,10 @@ class Server:
     def fault_for(self, what, idx):
         f = self.faults.get((what, idx))
         if f is None:
+            # 'N+': every connection from index N on (a server that serves the first N connections of a client only)
+            for (w, i), g in self.faults.items():
+                if w == what and isinstance(i, str) and i.endswith('+') and idx >= int(i[:-1]):
+                    return g
             f = self.faults.get((what, '*'))
         return f
 
